@@ -1116,7 +1116,9 @@ def key_reaches(ctx, slot, got, f, case_small):
     field = SEC_FIELD[slot]
 
     def received(call):
-        ks = dict(call['kwargs'])
+        # for a mixed class `mixed_init(**kwargs)` takes anything: only what the base constructor and the
+        # `__init_mixin__`s were actually handed counts as "reached"
+        ks = {} if call['kind'] == 'mixed' else dict(call['kwargs'])
         for ch in call.get('children', []):
             ks.update(ch['kwargs'])
         return ks
@@ -1785,6 +1787,101 @@ def targeted_malformed(rng, base):
     return out
 
 
+def composite_stream(ctx, scratch):
+    """every composite `mixin+base` selector the registry allows: a valid section, then the same section with ONE
+    unknown key (misspelt keys of the base and of the mixin, a key of an unrelated class) — must raise"""
+    rng = ctx.rng
+    reg = gen()['registry']
+    aux = os.path.join(scratch, 'aux')
+    np.savetxt(os.path.join(aux, 'chem.dat'), np.full((6, 2), 1e-4))
+    np.savetxt(os.path.join(aux, 'temp.dat'), np.linspace(1500, 500, 6))
+    needed = {'ChemistryFile': [('gases', ['H2O', 'CH4']), ('filename', os.path.join(aux, 'chem.dat'))],
+              'TemperatureFile': [('filename', os.path.join(aux, 'temp.dat'))]}
+    allkeys = sorted({a for sec in G.SECTIONS for k in reg[sec]['classes'] for a in k['args']})
+    for sec in G.SECTIONS:
+        if sec not in SEC_HEADER or not reg[sec]['mixins']:
+            continue
+        hdr, field = SEC_HEADER[sec], SEC_FIELD[sec]
+        for m in reg[sec]['mixins']:
+            if not m['keywords']:
+                continue
+            for k in reg[sec]['classes']:
+                if not k['keywords']:
+                    continue
+                sel = rcase(rng, str(rng.choice(m['keywords']))) + '+' + rcase(rng, str(rng.choice(k['keywords'])))
+                valid = [(field, sel)] + needed.get(k['name'], [])
+                for key, d in m['mixinKwargs']:
+                    valid.append((key, '1.5'))
+                accepted = {a for a, _ in k['kwargs']} | {a for a, _ in m['mixinKwargs']} | {field, 'python_file'}
+                base = dict(file=[(hdr, dict(scalars=valid, subs=[]))], customs=[], flavour='targeted', malformed=None,
+                            meta=[('composite', sec, sel.lower(), 'valid')])
+                res = eval_file(ctx, base, scratch)
+                buildable = res is not None and res[0][sec]['exc'] is None and res[0][sec]['ret'] is not None
+                ctx.bucket('composite:%s:%s' % (sec, 'buildable' if buildable else 'constructor-fails'))
+                bad = []
+                for key in [a for a, _ in k['kwargs']][:4] + [a for a, _ in m['mixinKwargs']]:
+                    bad += [key[:-1], key + 's', key.swapcase(), key[:1] + key]
+                bad += [str(x) for x in rng.choice(allkeys, size=4, replace=False)] + ['zzz_unknown', 'Tiso']
+                seen = set()
+                for b in bad:
+                    if not b or b in accepted or b in seen:
+                        continue
+                    seen.add(b)
+                    mc = dict(file=[(hdr, dict(scalars=valid + [(b, '1.0')], subs=[]))], customs=[],
+                              flavour='targeted' if buildable else 'composite-unbuildable',
+                              malformed=dict(kind='unknown_key', slot=sec, target=sec, header=hdr),
+                              meta=[('composite', sec, sel.lower(), b)])
+                    nv = len(ctx.violations)
+                    eval_file(ctx, mc, scratch)
+                    for v in ctx.violations[nv:]:
+                        v['case'] = dict(kind='file', file=mc['file'], customs=[], custom_src={},
+                                         malformed=mc['malformed'], flavour=mc['flavour'], meta=mc['meta'])
+
+
+def case_stream(ctx):
+    """selectors are case-insensitive (the documentation itself writes `Simple`, `Simple`, `custom`): the real
+    determine_klass must resolve every lower-case keyword, written in any letter case, to the same class"""
+    from taurex.parameter import factory as F
+    rng = ctx.rng
+    reg = gen()['registry']
+    fac = factories()
+    sb = G.bases()
+    for sec, f in sorted(fac.items()):
+        field = SEC_FIELD[sec]
+        for k in reg[sec]['classes']:
+            for kw in k['keywords']:
+                if kw != kw.lower() or kw == kw.upper():
+                    continue
+                try:
+                    ref = F.determine_klass({field: kw}, field, f, sb[sec])[1]
+                except Exception as e:  # noqa
+                    ref = 'raised:' + type(e).__name__
+                variants = {kw.upper(), kw.capitalize(), kw.swapcase(),
+                            ''.join(c.upper() if rng.random() < 0.5 else c for c in kw)} - {kw}
+                for v in sorted(variants):
+                    try:
+                        got = F.determine_klass({field: v}, field, f, sb[sec])[1]
+                    except Exception as e:  # noqa
+                        got = 'raised:' + type(e).__name__
+                    ctx.case(key=('case', sec, v), bucket='selector-case')
+                    if got is not ref:
+                        ctx.violation('selector-case:%s' % field,
+                                      'selector `%s = %s` does not resolve to the class of `%s`' % (field, v, kw),
+                                      dict(kind='case', sec=sec, written=v, keyword=kw),
+                                      dict(lower=clean_repr(ref), written=clean_repr(got)))
+                    if not BUILD_BROKEN and sec in ('temperature', 'pressure', 'planet', 'star', 'optimizer'):
+                        d = ctx.model().call('c15.expected', '0', enc_file(
+                            [(SEC_HEADER[sec], dict(scalars=[(field, v)], subs=[]))]))
+                        g = dec_graph(d)[sec]
+                        if g is not None and g[0] == 'ok':
+                            ctx.check_eq('C15 selector letter case: determine_klass vs Factory.expected',
+                                         G.class_path(got) if inspect.isclass(got) else got, g[1]['cls'],
+                                         dict(kind='case', sec=sec, written=v))
+                        elif g is not None and g[1] == 'NotImplementedError':
+                            ctx.check_eq('C15 selector letter case: determine_klass vs Factory.expected',
+                                         got, 'raised:NotImplementedError', dict(kind='case', sec=sec, written=v))
+
+
 def build_library(spec):
     """the same components through the library API"""
     cpath, ckw, gs = spec['chemistry']
@@ -1907,7 +2004,9 @@ def run(ctx):
         rng = ctx.rng
         check_docs(ctx, prepare_aux(s.scratch))
         lookup_stream(ctx)
+        case_stream(ctx)
         transform_stream(ctx)
+        composite_stream(ctx, s.scratch)
         fg = FileGen(rng, s.scratch)
         n = ctx.n(1500, 24000)
         for i in range(n):
@@ -1957,6 +2056,8 @@ def replay(ctx, case):
             eval_transform(ctx, case['raw'])
         elif kind in ('lookup', 'prior'):
             lookup_stream(ctx)
+        elif kind == 'case':
+            case_stream(ctx)
         elif kind == 'cli':
             opac = make_opacities(s.scratch, np.random.default_rng(int(case.get('opac_seed', 0))))
             c = dict(case)
